@@ -51,7 +51,8 @@ func GetRandomPositiveInt(rand io.Reader, lessThan *big.Int) *big.Int {
 }
 
 func GetRandomPrimeInt(rand io.Reader, bits int) *big.Int {
-	if bits <= 0 {
+	if bits <= 1 {
+		// there is no prime of fewer than 2 bits; the retry loop below would never end
 		return nil
 	}
 	try, err := cryptorand.Prime(rand, bits)
@@ -71,7 +72,8 @@ func GetRandomPrimeInt(rand io.Reader, bits int) *big.Int {
 // Generate a random element in the group of all the elements in Z/nZ that
 // has a multiplicative inverse.
 func GetRandomPositiveRelativelyPrimeInt(rand io.Reader, n *big.Int) *big.Int {
-	if n == nil || zero.Cmp(n) != -1 {
+	if n == nil || one.Cmp(n) != -1 {
+		// [1, n) is empty for n <= 1; the retry loop below would never end
 		return nil
 	}
 	var try *big.Int
